@@ -196,7 +196,7 @@ def build_race():
     return rc == 0, out
 
 
-def run_race(progs, timeout=180, plain=False):
+def run_race(progs, timeout=180, plain=False, env=None):
     """progs: list of programs; a program is a list of goroutines; a goroutine is a list of op lines.
     Each program runs in its own fresh process (cold package).  Returns (per-goroutine result lists, race report or None, rc)."""
     import tempfile, concurrent.futures
@@ -206,7 +206,7 @@ def run_race(progs, timeout=180, plain=False):
             for g in prog:
                 f.write(("PRE " + "|".join(g[1:]) if g and g[0] == "PRE" else "|".join(g)) + "\n")
         try:
-            p = subprocess.run([os.path.join(BUILD, "implrun_race_plain" if plain else "implrun_race"), "race", path], env=dict(GOENV, GORACE="halt_on_error=0"),
+            p = subprocess.run([os.path.join(BUILD, "implrun_race_plain" if plain else "implrun_race"), "race", path], env=dict(GOENV, GORACE="halt_on_error=0", **(env or {})),
                                stdout=subprocess.PIPE, stderr=subprocess.PIPE, text=True, timeout=timeout)
             rc, out, err = p.returncode, p.stdout, p.stderr
         except subprocess.TimeoutExpired:
